@@ -390,9 +390,9 @@ PROPS = {
     'C02': alg(simple_jobs('elim', 640), mc=lambda tier: gf2_mc(tier) + [mcjob('MC_Echelon', 'MC_Echelon_km%d' % km, workers=12) for km in (1, 2, 6)]),
     'C03': alg(simple_jobs('ple', 480, qshards=12), mc=lambda tier: gf2_mc(tier) + [mcjob('MC_PLE', 'MC_PLE', workers=12), mcjob('MC_PLE', 'MC_PLE_tall', workers=12)]),
     'C04': alg(simple_jobs('trsm', 480), mc=lambda tier: gf2_mc(tier) + [mcjob('MC_TRSM', workers=12, timeout=1800)]),
-    'C05': alg(simple_jobs('inv', 320)),
-    'C06': alg(simple_jobs('solve', 480)),
-    'C07': alg(simple_jobs('kernel', 320)),
+    'C05': alg(simple_jobs('inv', 320), mc=lambda tier: gf2_mc(tier) + [mcjob('MC_Solve', workers=12)]),
+    'C06': alg(simple_jobs('solve', 480), mc=lambda tier: gf2_mc(tier) + [mcjob('MC_Solve', workers=12), mcjob('MC_Solve', 'MC_Solve_wit_f03', workers=4, witness=True)]),
+    'C07': alg(simple_jobs('kernel', 320), mc=lambda tier: gf2_mc(tier) + [mcjob('MC_Solve', workers=12)]),
     'C08': alg(simple_jobs('move', 1600), mc=words_mc('MC_MzdWords_c08_w3')),
     'C13': alg(simple_jobs('rowops', 1200), mc=words_mc('MC_MzdWords_c13_w3')),
     'C17': alg(simple_jobs('obs', 1600), mc=words_mc('MC_MzdWords_c17_w2')),
